@@ -1080,11 +1080,12 @@ pub fn generate(ctx: &Ctx) {
   ctx.require(ISSUER_DOC.resolve_service("#rev").map(|s| RevocationBitmap::try_from(s).is_ok()).unwrap_or(false), "seed issuer document: the revocation bitmap service does not decode");
   // pairs (thorough): the second mutation ranges over the value-replacing and structural mutations that are
   // cheap to parse; the long-string and deep-nest mutations stay first-only.
-  let pair_mutations: Vec<usize> = (0..N_MUT).filter(|m| ![22usize, 26].contains(m)).collect();
-  run_json_sweeps(ctx, "json: from_json entry points", &sweeps, ctx.thorough(), &pair_mutations);
+  // quick: pairs too, with a reduced menu for the second mutation.
+  let pair_mutations: Vec<usize> = if ctx.quick() { vec![0, 1, 13, 17] } else { (0..N_MUT).filter(|m| ![22usize, 26].contains(m)).collect() };
+  run_json_sweeps(ctx, "json: from_json entry points", &sweeps, true, &pair_mutations);
   ctx.sample("json", &In::S(SEED_STATUS_RB).case("Status::from_json"));
   ctx.bound("json_mutation_menu", MUT_NAMES);
-  ctx.bound("json_mutation_depth", ctx.by_tier("all single mutations", "all single mutations + all ordered pairs at two different nodes"));
+  ctx.bound("json_mutation_depth", ctx.by_tier("all single mutations + all ordered pairs at two different nodes with the second mutation from a menu of 4 (delete, null, \"did:ex:%+4\", {})", "all single mutations + all ordered pairs at two different nodes (second mutation: 28 of the 30)"));
 
   // Duration: the complete boundary product of (seconds, nanoseconds)
   let secs: [&str; 15] = ["0", "1", "-1", "59", "60", "86400", "253402300799", "253402300800", "-62167219200", "-62167219201", "9223372036854775807", "-9223372036854775808", "9223372036854775808", "1.5", "\"1\""];
